@@ -825,3 +825,104 @@ def feature_family() -> List[Tuple[str, str]]:
     F["while_cond_call"] = H + M + 'pot = Potentiometer("A0")\nwhile True:\n    while pot.read() > 900:\n        mon.write("hi")\n    sleep(1)\n'
     F["global_in_fn"] = H + M + 'count = 0\ndef bump():\n    global count\n    count += 1\nwhile True:\n    bump()\n    mon.write(count)\n'
     return [(f"feature/{k}", v) for k, v in F.items()]
+
+
+# ------------------------------------------------------------------ context x statement product family
+# Every statement kind is placed in every block context (so "this statement works in an if-arm" is not taken as
+# evidence that it works in an elif-arm, an else-arm, a nested loop, a helper function, a try body or the prologue).
+# {S1}/{S2}/{S3} = the statement block indented one/two/three levels.
+CTX_LOOP: Dict[str, str] = {
+    "top": "{S0}",
+    "if": "if a > 0:\n{S1}mon.write(90)\n",
+    "elif": "if a > 300:\n    mon.write(80)\nelif a > 0:\n{S1}mon.write(90)\n",
+    "else": "if a > 0:\n    mon.write(80)\nelse:\n{S1}mon.write(90)\n",
+    "else_after_elif": "if a > 300:\n    mon.write(80)\nelif a > 100:\n    mon.write(81)\nelse:\n{S1}mon.write(90)\n",
+    "nested_else": "if b > 0:\n    if a > 0:\n        mon.write(80)\n    else:\n{S2}mon.write(90)\n",
+    "for": "for i in range(2):\n{S1}mon.write(90)\n",
+    "while": "n = 0\nwhile n < 2:\n    n += 1\n{S1}mon.write(90)\n",
+    "for_in_if": "if a > 0:\n    for i in range(2):\n{S2}mon.write(90)\n",
+    "if_in_for": "for i in range(2):\n    if i == 1:\n{S2}mon.write(90)\n",
+    "elif_in_for": "for i in range(3):\n    if i == 0:\n        mon.write(80)\n    elif i == 1:\n{S2}mon.write(90)\n",
+    "else_in_while": "n = 0\nwhile n < 2:\n    n += 1\n    if n == 1:\n        mon.write(80)\n    else:\n{S2}mon.write(90)\n",
+    "for_in_for": "for i in range(2):\n    for j in range(2):\n{S2}mon.write(90)\n",
+    "try": "try:\n{S1}except:\n    mon.write(70)\nmon.write(90)\n",
+}
+# contexts whose innermost enclosing loop is a script-level for/while (break is legal; continue stays inside)
+CTX_INNER_LOOP = ("for", "while", "for_in_if", "if_in_for", "elif_in_for", "else_in_while", "for_in_for")
+
+# name -> (globals declared before the main loop, statement block, observation after the context, flags)
+#   flags: "g:<names>" the block assigns these globals (a helper function needs `global`); "loop" needs an enclosing
+#   script-level loop; "main" legal at main-loop level too (continue)
+CTX_STMTS: Dict[str, Tuple[str, str, str, str]] = {
+    "write": ("", "mon.write(a)\n", "", ""),
+    "two_writes": ("", "mon.write(a)\nmon.write(b)\n", "", ""),
+    "new_zero": ("", "t = 0\nt += a\nmon.write(t)\n", "", ""),
+    "new_false": ("", "f = False\nf = f or a > 5\nmon.write(1 if f else 0)\n", "", ""),
+    "new_empty_str": ("", 's = ""\ns = s + "x"\nmon.write(s)\n', "", ""),
+    "new_float_zero": ("", "t = 0.0\nt = t + a / 4.0\nmon.write(t)\n", "", ""),
+    "new_var": ("", "t = a + 1\nmon.write(t)\n", "", ""),
+    "aug_global": ("acc = 0\n", "acc += 1\n", "mon.write(acc)\n", "g:acc"),
+    "const_bump": ("k = 5\n", "k = k + 1\n", "sleep(k)\nmon.write(k)\n", "g:k"),
+    "str_reassign": ('s = "abc"\n', 's = "abcdef"\n', "mon.write(s)\n", "g:s"),
+    "sleep": ("", "sleep(a + 600)\n", "", ""),
+    "led_level": ("led = Led(9)\n", "led.set_brightness(40)\n", "mon.write(led.get_brightness())\nled.toggle()\n", ""),
+    "led_toggle": ("led = Led(13)\n", "led.toggle()\n", "mon.write(1 if led.get_state() else 0)\n", ""),
+    "rgb_set": ("rgb = RGBLed(3, 5, 6)\n", "rgb.set_color(10, 20, 30)\n", "rgb.blink(1, 2, 3, 1, 5)\n", ""),
+    "continue": ("", "mon.write(1)\ncontinue\n", "", "main"),
+    "break": ("", "mon.write(1)\nbreak\n", "", "loop"),
+    "append": ("xs = [1, 2]\n", "xs.append(a)\nmon.write(xs[2])\n", "mon.write(xs[0])\n", ""),
+    "remove_dup": ("xs = [2, 5, 2, 8]\n", "xs.remove(2)\nxs.append(2)\n", "mon.write(xs[0])\nmon.write(xs[1])\nmon.write(xs[2])\n", ""),
+    "self_append": ("xs = [4, 5]\n", "xs.append(xs[0])\nxs.remove(xs[0])\n", "mon.write(xs[0])\nmon.write(xs[1])\n", ""),
+    "swap": ("x = 1\ny = 2\n", "x, y = y, x\n", "mon.write(x)\nmon.write(y)\n", "g:x,y"),
+    "list_swap": ("p = [1, 2]\nq = [3, 4]\n", "p, q = q, p\n", "mon.write(p[0])\nmon.write(q[1])\n", "g:p,q"),
+    "call_void": ("def report(v):\n    mon.write(v)\n    mon.write(v + 1)\n", "report(a)\n", "", ""),
+    "call_value": ("def inc(v):\n    return v + 1\n", "mon.write(inc(a))\n", "", ""),
+    "range_name": ("n = 1\n", "for r in range(n):\n    mon.write(r)\nn = n + 1\n", "mon.write(n)\n", "g:n"),
+    "pass": ("", "pass\nmon.write(5)\n", "", ""),
+    "str_vars": ("", 't = "it\'s #1"\nmon.write(t)\nu = \'say "hi" # no\'\nmon.write(u)\n', "", ""),
+    "strings": ("", 'mon.write("tab\\there")\nmon.write("it\'s #1")\nmon.write(\'say "hi" # no\')\n', "", ""),
+}
+
+
+def _fill(template: str, block: str) -> str:
+    out = template
+    for k in range(4):
+        out = out.replace("{S%d}" % k, _ind(block, 4 * k) if k else block)
+    return out
+
+
+def ctx_family(tier="quick", stmts=None, contexts=None) -> List[Tuple[str, str]]:
+    """ids: ctx/<context>/<statement>."""
+    out = []
+    reads_setup = 'a = analog_read("A0") - 512\nb = analog_read("A1") - 512\n'
+    for sname, (pre, block, post, flags) in CTX_STMTS.items():
+        if stmts is not None and sname not in stmts:
+            continue
+        gl = flags[2:].split(",") if flags.startswith("g:") else []
+        for cname, tmpl in CTX_LOOP.items():
+            if contexts is not None and cname not in contexts:
+                continue
+            if flags == "loop" and cname not in CTX_INNER_LOOP:
+                continue
+            body = _fill(tmpl, block)
+            out.append((f"ctx/{cname}/{sname}", HEADER + pre + "while True:\n" + READ_AB + _ind(body) + _ind(post)))
+        if contexts is not None and not any(c in contexts for c in ("fn", "fn_if", "fn_doc", "setup", "setup_else")):
+            continue
+        # helper-function contexts (not for continue/break at function level)
+        gdecl = ("global " + ", ".join(gl) + "\n") if gl else ""
+        if flags not in ("main", "loop"):
+            for cname, fbody in (("fn", gdecl + block),
+                                 ("fn_if", gdecl + "if a > 0:\n" + _ind(block) + "else:\n    mon.write(80)\n"),
+                                 ("fn_doc", '"""Do the work."""  # a docstring with a trailing comment\n' + gdecl + block)):
+                if contexts is not None and cname not in contexts:
+                    continue
+                src = HEADER + pre + "def work(a, b):\n" + _ind(fbody) + "while True:\n" + READ_AB + "    work(a, b)\n" + _ind(post)
+                out.append((f"ctx/{cname}/{sname}", src))
+        # prologue contexts
+        if flags not in ("main", "loop"):
+            for cname, sbody in (("setup", block), ("setup_else", "if a > 0:\n    mon.write(80)\nelse:\n" + _ind(block))):
+                if contexts is not None and cname not in contexts:
+                    continue
+                src = HEADER + pre + reads_setup + sbody + post + "while True:\n    mon.write(0)\n" + _ind(post)
+                out.append((f"ctx/{cname}/{sname}", src))
+    return out
